@@ -143,7 +143,7 @@ concatenate to it (`StrSplit`).  `hsafe`: what precedes an opening parenthesis o
 theorem C07_string_literal_lexes (st : PState) (TS : List Tok) (lt slt : Option Tok) (s : List Char) (paren : Bool)
     (hK : K st TS lt) (hr : lt = none ∨ lt = slt) (hsafe : paren = true → ∀ t0, slt = some t0 → adjOK t0 .lp = true) :
     ∃ ts lt', K (breakLongStr st s paren) (TS ++ ts) lt' ∧ StrSplit (escQ s) ts :=
-  let ⟨ts, lt', h1, _, h3⟩ := K_str st TS lt slt s paren hK hr hsafe
+  let ⟨ts, lt', h1, _, h3, _⟩ := K_str st TS lt slt s paren hK hr hsafe
   ⟨ts, lt', h1, h3⟩
 
 /-- **The prediction behind repair C07-7 is sound, for every state and line length.**  In operand position (`paren = true`)
@@ -232,6 +232,27 @@ theorem C07_no_remark_in_expression_partial (e : Expr) (hw : lexWF e) (p : Bool)
     rw [← ht]
     exact List.mem_flatMap.mpr ⟨a, ha, List.mem_map.mpr ⟨x, hx, rfl⟩⟩
   obtain ⟨lt', _, hC⟩ := KC_run (annot e p q) st [] none none (K_init st h0 hs) ⟨by rw [ht0]; rfl, Or.inl ht0⟩
+    (fun t0 h => by cases h) (Or.inl rfl) hsafe hcl
+  rw [hf] at hC
+  exact hC.1
+
+/-- the same for expressions with simple string literals and real literals in any `%#.15g` spelling (`lexWFS (respell e)`), whether
+`breakLongStr` splits a literal or not: `htok` then also says that no string literal `'…'` (doubled apostrophes) contains a remark
+opener or closer — if one does, so does the source, inside that literal -/
+theorem C07_no_remark_in_expression_strings_partial (e : Expr) (hw : lexWFS (respell e)) (p : Bool) (q : Option BinOp) (st : PState)
+    (h0 : st.pieces = []) (hs : st.spaceLast = false)
+    (htok : ∀ t ∈ toks Shared.clean (respell e) p q, hasPair remarkPairs (sp t) = false) :
+    hasPair remarkPairs (run st (exprFrags Shared.clean e p q)).text = false := by
+  rw [← (frags_respellS e).1 p q hw]
+  obtain ⟨hf, ht⟩ := (annotS_eq (respell e)).1 p q hw
+  obtain ⟨hsafe, _⟩ := (safe_allS (respell e)).1 p q none hw (Or.inl rfl)
+  have ht0 : st.text = [] := by simp [PState.text, h0]
+  have hcl : ∀ x ∈ annotS (respell e) p q, ∀ t ∈ x.toks, hasPair remarkPairs (sp t) = false := by
+    intro x hx t htk
+    apply htok
+    rw [← ht]
+    exact List.mem_flatMap.mpr ⟨x, hx, htk⟩
+  obtain ⟨ts, lt', _, hC⟩ := KC_runS (annotS (respell e) p q) st [] none none (K_init st h0 hs) ⟨by rw [ht0]; rfl, Or.inl ht0⟩
     (fun t0 h => by cases h) (Or.inl rfl) hsafe hcl
   rw [hf] at hC
   exact hC.1
